@@ -609,6 +609,9 @@ func runBatch() {
 			if nb > 0 {
 				num, den = 1, 12
 			}
+		case "C03": // library-made signatures as batch members of every size / position, same-signer runs
+			want = !isErr && only("sameSigner") && c.Entropy == "random"
+			num, den = 1, 8
 		case "C04": // S >= L at every position of every chunking, all four verifier modes
 			want = !isErr && nb > 0 && only("SplusL", "SplusLbad", "flipS", "wrongMsg", "smallA") && (kinds["SplusL"] || kinds["SplusLbad"])
 			num, den = 1, 8
